@@ -1,4 +1,5 @@
 import Dalek.Proofs.Group
+import Dalek.Proofs.CurveOrder.Structure
 import Dalek.Props.C17.Consts
 /-!
 # C17 (part B) — the `ff::Field` / `ff::PrimeField` / `group::GroupEncoding` / `CofactorGroup` model
@@ -438,5 +439,67 @@ example {b : List UInt8} {e : EPt} (h : EPt.decompress b = some e) : e.Valid := 
 
 /-- info: 'Dalek.Props.C17.clear_cofactor_E' depends on axioms: [propext, Classical.choice, Quot.sound] -/
 #guard_msgs in #print axioms clear_cofactor_E
+
+/-! ## 10. `clear_cofactor` and the prime-order subgroup, WITHOUT hypotheses on the group order
+
+`Dalek/Proofs/CurveOrder.lean` proves `#E = 8ℓ` (`Dalek.CurveOrder.card_Ed : Nat.card Ed = 8 * L`) and
+`Dalek/Proofs/CurveOrder/Structure.lean` the structure `E = ⟨B⟩ ⊕ ⟨T₈⟩`; so the hypothesis `h8l` of
+`clear_cofactor_torsion_free` holds for every point. -/
+
+/-- **`clear_cofactor` always returns a torsion-free point** (no hypothesis: `(8ℓ)·P = 0` for every point of
+the curve, `Dalek.CurveOrder.eight_L_nsmul`). -/
+theorem clear_cofactor_torsion_free' {p : Pt} (hp : onCurve p = true) :
+    isTorsionFree (Group.clearCofactor p) = true :=
+  clear_cofactor_torsion_free hp (Dalek.CurveOrder.eight_L_nsmul _)
+
+/-- hence `into_subgroup (clear_cofactor p)` is always `Some` -/
+theorem into_subgroup_clear_cofactor {p : Pt} (hp : onCurve p = true) :
+    Group.intoSubgroup (Group.clearCofactor p) = some (Group.clearCofactor p) :=
+  (Dalek.Proofs.Group.intoSubgroup_eq_some_iff _ _).2 ⟨rfl, clear_cofactor_torsion_free' hp⟩
+
+/-- **The torsion-free points are exactly the multiples of the basepoint**: `is_torsion_free p` iff `p` denotes
+`n·B` for some `n < ℓ` (the prime-order subgroup is `⟨B⟩`, of order `ℓ`). -/
+theorem is_torsion_free_iff_multiple_of_B {p : Pt} (hp : onCurve p = true) :
+    isTorsionFree p = true ↔ ∃ n, n < L ∧ toEd p hp = n • Bpt := by
+  rw [isTorsionFree_iff hp, Dalek.CurveOrder.prime_order_subgroup_iff]
+
+/-- **`clear_cofactor p` is a multiple of the basepoint**, for every curve point `p`. -/
+theorem clear_cofactor_multiple_of_B {p : Pt} (hp : onCurve p = true) :
+    ∃ n, n < L ∧ Group.clearCofactor p = Pt.smul n B := by
+  obtain ⟨n, hn, h⟩ := (is_torsion_free_iff_multiple_of_B (clear_cofactor_onCurve hp)).1
+    (clear_cofactor_torsion_free' hp)
+  refine ⟨n, hn, ?_⟩
+  refine toEd_injective (clear_cofactor_onCurve hp) (onCurve_smul onCurve_B n) (clear_cofactor_canon p)
+    (canon_smul n B) ?_
+  rw [h, toEd_smul onCurve_B n]; rfl
+
+/-- **The points of small order are exactly the eight entries of `EIGHT_TORSION`** (`Spec.eightTorsion`,
+compared with the crate's literals in `Dalek/Props/C12/Consts.lean`). -/
+theorem is_small_order_iff_eight_torsion {p : Pt} (hp : onCurve p = true) (cp : Canon p) :
+    isSmallOrder p = true ↔ ∃ i, i < 8 ∧ p = eightTorsion.getD i Pt.zero := by
+  rw [isSmallOrder_iff hp]
+  constructor
+  · intro h
+    obtain ⟨i, hi, hr⟩ := Dalek.CurveOrder.torsion8_rep h
+    refine ⟨i, hi, Rep.unique (rep_toEd p hp) hr cp ?_⟩
+    have : ∀ i, i < 8 → Canon (eightTorsion.getD i Pt.zero) := by decide +kernel
+    exact this i hi
+  · rintro ⟨i, hi, rfl⟩
+    exact Dalek.CurveOrder.eightTorsion_small_order hi (rep_toEd _ hp)
+
+/-- info: 'Dalek.Props.C17.clear_cofactor_torsion_free'' depends on axioms: [propext, Classical.choice, Quot.sound] -/
+#guard_msgs in #print axioms clear_cofactor_torsion_free'
+
+/-- info: 'Dalek.Props.C17.into_subgroup_clear_cofactor' depends on axioms: [propext, Classical.choice, Quot.sound] -/
+#guard_msgs in #print axioms into_subgroup_clear_cofactor
+
+/-- info: 'Dalek.Props.C17.is_torsion_free_iff_multiple_of_B' depends on axioms: [propext, Classical.choice, Quot.sound] -/
+#guard_msgs in #print axioms is_torsion_free_iff_multiple_of_B
+
+/-- info: 'Dalek.Props.C17.clear_cofactor_multiple_of_B' depends on axioms: [propext, Classical.choice, Quot.sound] -/
+#guard_msgs in #print axioms clear_cofactor_multiple_of_B
+
+/-- info: 'Dalek.Props.C17.is_small_order_iff_eight_torsion' depends on axioms: [propext, Classical.choice, Quot.sound] -/
+#guard_msgs in #print axioms is_small_order_iff_eight_torsion
 
 end Dalek.Props.C17
